@@ -25,8 +25,8 @@ EXPLANATION = (
 RULE_TEXT = 'one obligation per text sink x (quote context, sanitiser, multi-line switch), per sanitiser x escaped character, per SQL note sink, per normalisation step'
 ASSUMPTIONS = ['idempotence of the normalisation over all strings is not decided (regular-expression semantics over arbitrary text would need a solver or proof assistant)',
                'the DBML-expressible value domain is the one the extracted tokens define (DESIGN.md section 4)']
-ENGINES = ['pyindex', 'grammar', 'strctx', 'paths']
-TECHNIQUE = 'static analysis (ast): string-context analysis of renderer templates with helper inlining; semantic reading of sanitiser bodies (regex AST, replace pairs); grammar-derived token classes per attribute; structural reading of the normalisation helpers'
+ENGINES = ['pyindex', 'grammar', 'strctx', 'paths', 'strval']
+TECHNIQUE = 'static analysis (ast): string-context analysis of renderer templates with helper inlining; semantic reading of sanitiser bodies (regex AST, replace pairs); grammar-derived token classes per attribute; structural reading of the normalisation helpers; sanitisers specialised to call-site constants; normalisation chain by dataflow'
 
 DBML = 'pydbml.renderer.dbml.'
 
